@@ -7,8 +7,11 @@ package c03
 import (
 	"encoding/json"
 	"fmt"
+	"os"
+	"os/exec"
 	"regexp"
 	"runtime"
+	"strconv"
 	"strings"
 	"sync/atomic"
 
@@ -515,24 +518,31 @@ func run(c *mc.Ctx) {
 			}
 		}
 	}
-	// 2b) numeric-width grid: chunk sizes and Content-Length values of every width up to 20 digits
-	for k := 1; k <= 20; k++ {
-		for _, d := range []string{strings.Repeat("f", k), "8" + strings.Repeat("0", k-1), "7" + strings.Repeat("f", k-1), strings.Repeat("0", k-1) + "1"} {
-			for _, st := range []bool{false, true} {
-				for _, bw := range []bool{false, true} {
-					w.execServer(c, Case{Side: "server", Streaming: st, Bytewise: bw, Input: "POST /n HTTP/1.1\r\nHost: h\r\nTransfer-Encoding: chunked\r\n\r\n" + d + "\r\na\r\n0\r\n\r\n"})
-					execClient(c, Case{Side: "client", Streaming: st, Bytewise: bw, Input: "HTTP/1.1 200 OK\r\nTransfer-Encoding: chunked\r\n\r\n" + d + "\r\na\r\n0\r\n\r\n"})
-					atomic.AddInt64(ex, 2)
+	// 2b) numeric-width grid: chunk sizes and Content-Length values of every width up to 20 digits. A size the code
+	// believes can end in "fatal error: out of memory", which no recover() stops, so the grid runs in a child process:
+	// if the child dies the case it was working on is the violation, and the grid resumes after it.
+	grid := numericGrid()
+	for from := 0; from < len(grid); {
+		done, crashed, msg := runGridChild(from)
+		atomic.AddInt64(ex, int64(done-from))
+		if !crashed {
+			if msg == "violations" {
+				// ordinary (non-fatal) violations were seen in the child: record them by running the cases here
+				for _, cs := range grid[from:] {
+					if cs.Side == "server" {
+						w.execServer(c, cs)
+					} else {
+						execClient(c, cs)
+					}
 				}
 			}
+			break
 		}
-		for _, d := range []string{strings.Repeat("9", k), "1" + strings.Repeat("0", k-1), strings.Repeat("0", k-1) + "1"} {
-			for _, st := range []bool{false, true} {
-				w.execServer(c, Case{Side: "server", Streaming: st, Input: "POST /n HTTP/1.1\r\nHost: h\r\nContent-Length: " + d + "\r\n\r\na"})
-				execClient(c, Case{Side: "client", Streaming: st, Input: "HTTP/1.1 200 OK\r\nContent-Length: " + d + "\r\n\r\na"})
-				atomic.AddInt64(ex, 2)
-			}
+		if done < len(grid) {
+			cs := grid[done]
+			c.ViolateObserved("process-crash|"+cs.Side+"|numeric-width", fmt.Sprintf("the process died (not a recoverable panic) while handling a peer-controlled size: %s\ninput=%q", msg, cs.Input), cs)
 		}
+		from = done + 1
 	}
 	pool <- w
 	// 3) parsers: all token strings up to n
@@ -572,6 +582,79 @@ func run(c *mc.Ctx) {
 		})
 	}
 	c.Add("transitions", c.Get("executions"))
+}
+
+func numericGrid() []Case {
+	var out []Case
+	for k := 1; k <= 20; k++ {
+		for _, d := range []string{strings.Repeat("f", k), "8" + strings.Repeat("0", k-1), "7" + strings.Repeat("f", k-1), strings.Repeat("0", k-1) + "1"} {
+			for _, st := range []bool{false, true} {
+				for _, bw := range []bool{false, true} {
+					out = append(out, Case{Side: "server", Streaming: st, Bytewise: bw, Input: "POST /n HTTP/1.1\r\nHost: h\r\nTransfer-Encoding: chunked\r\n\r\n" + d + "\r\na\r\n0\r\n\r\n"})
+					out = append(out, Case{Side: "client", Streaming: st, Bytewise: bw, Input: "HTTP/1.1 200 OK\r\nTransfer-Encoding: chunked\r\n\r\n" + d + "\r\na\r\n0\r\n\r\n"})
+				}
+			}
+		}
+		for _, d := range []string{strings.Repeat("9", k), "1" + strings.Repeat("0", k-1), strings.Repeat("0", k-1) + "1"} {
+			for _, st := range []bool{false, true} {
+				out = append(out, Case{Side: "server", Streaming: st, Input: "POST /n HTTP/1.1\r\nHost: h\r\nContent-Length: " + d + "\r\n\r\na"})
+				out = append(out, Case{Side: "client", Streaming: st, Input: "HTTP/1.1 200 OK\r\nContent-Length: " + d + "\r\n\r\na"})
+			}
+		}
+	}
+	return out
+}
+
+// child mode: VERIF_C03_GRID=<from> runs the numeric grid from that index, printing "AT <i>" before each case.
+func init() {
+	v := os.Getenv("VERIF_C03_GRID")
+	if v == "" {
+		return
+	}
+	from, _ := strconv.Atoi(v)
+	grid := numericGrid()
+	c := mc.NewCtx("C03", "quick")
+	w := &worker{servers: map[string]*srvh.Server{}}
+	for i := from; i < len(grid); i++ {
+		fmt.Printf("AT %d\n", i)
+		if grid[i].Side == "server" {
+			w.execServer(c, grid[i])
+		} else {
+			execClient(c, grid[i])
+		}
+	}
+	fmt.Printf("AT %d\n", len(grid))
+	if c.ViolationCount() > 0 {
+		fmt.Println("VIOLATIONS-IN-CHILD")
+	}
+	os.Exit(0)
+}
+
+// runGridChild runs the grid from index `from` in a child process; it returns the index reached.
+func runGridChild(from int) (reached int, crashed bool, msg string) {
+	cmd := exec.Command(os.Args[0], "list")
+	cmd.Env = append(os.Environ(), "VERIF_C03_GRID="+strconv.Itoa(from))
+	out, err := cmd.CombinedOutput()
+	reached = from
+	for _, ln := range strings.Split(string(out), "\n") {
+		if strings.HasPrefix(ln, "AT ") {
+			reached, _ = strconv.Atoi(ln[3:])
+		}
+	}
+	if err != nil {
+		msg = err.Error()
+		for _, ln := range strings.Split(string(out), "\n") {
+			if strings.HasPrefix(ln, "fatal error") || strings.HasPrefix(ln, "panic:") || strings.HasPrefix(ln, "runtime:") {
+				msg += "; " + ln
+				break
+			}
+		}
+		return reached, true, msg
+	}
+	if strings.Contains(string(out), "VIOLATIONS-IN-CHILD") {
+		return reached, false, "violations"
+	}
+	return reached, false, ""
 }
 
 func min(a, b int) int {
